@@ -243,7 +243,7 @@ use pcv_core::rng::Rng;
 pub fn name_pool() -> &'static [&'static str] {
     &[
         "", "a", "b", "x", "y", "id", "name", "value", "Foo", "Bar", "Baz", "Point", "Outer", "Inner", "Result<T, E>", "Range<T>", "käse", "名前", "🦀", "with space",
-        "a_very_long_identifier_name_that_goes_on_and_on_0123456789", "A", "B", "C", "Alpha", "Beta", "Gamma", "Delta", "f0", "f1", "f2", "zeta", "eta", "Ok", "Err", "Key", "\u{0}",
+        "a_very_long_identifier_name_that_goes_on_and_on_0123456789", "r#type", "r#", "type", "abc", "A", "B", "C", "Alpha", "Beta", "Gamma", "Delta", "f0", "f1", "f2", "zeta", "eta", "Ok", "Err", "Key", "\u{0}",
     ]
 }
 
